@@ -14,7 +14,8 @@ import (
 )
 
 var c14Pkgs = [...]string{"p", "q", "r"}
-var c14Vers = [...]string{"1.0.0", "1.1.0", "2.0.0-a", "0.9.0"}
+var c14Vers = [...]string{"1.0.0", "1.1.0", "2.0.0-a", "0.9.0", "foo"}
+var c14Tags = [...]string{"", "latest", "x"}
 var c14Digits = [...]string{"0", "1", "2", "3", "4", "5"}
 
 type c14Entry struct {
@@ -34,10 +35,14 @@ func VerifC14History() {
 		pk := PackageKey{System: sys, Name: c14Pkgs[vParam(tag+"p")]}
 		vk := VersionKey{PackageKey: pk, VersionType: Concrete, Version: c14Vers[vParam(tag+"v")]}
 		var attrs version.AttrSet
-		if vBool(tag + ".blocked") {
+		if (step+vParam(tag+"v"))%2 == 1 { // a second attribute, so that attribute sets differ in more than the tag
 			attrs.SetAttr(version.Blocked, "")
 		}
-		attrs.SetAttr(version.Tags, vBytes(tag+".tags", 1)) // arbitrary one-byte tag text
+		tsel := vByte(tag + ".tag") // no tag, the latest tag, or some other tag
+		vAssume(tsel <= 2)
+		if tsel != 0 {
+			attrs.SetAttr(version.Tags, c14Tags[tsel])
+		}
 		deleted := false
 		if vParam(tag+"d") == 1 {
 			attrs.SetAttr(version.Deleted, "")
@@ -47,7 +52,7 @@ func VerifC14History() {
 		nreq := vParam(tag + "n")
 		for j := 0; j < nreq; j++ {
 			rt := dep.Type{}
-			if vBool(tag + ".dev" + c14Digits[j]) {
+			if j == 0 && vBool(tag+".dev"+c14Digits[j]) {
 				rt.AddAttr(dep.Dev, "")
 			}
 			target := PackageKey{System: sys, Name: c14Pkgs[(vParam(tag+"p")+1+j)%3]}
@@ -79,7 +84,7 @@ func VerifC14History() {
 		}
 		vAssert(err == nil, "every mentioned package is known")
 		count := 0
-		for vi := 0; vi < 4; vi++ {
+		for vi := 0; vi < len(c14Vers); vi++ {
 			vk := VersionKey{PackageKey: pk, VersionType: Concrete, Version: c14Vers[vi]}
 			got, err := lc.Version(ctx, vk)
 			e, added := model[vk]
@@ -121,9 +126,71 @@ func VerifC14History() {
 			vAssert(found, "an exact requirement matches the added version")
 		}
 		vAssert(len(vs) == count, "listing contains nothing but the added versions")
-		semsys := sys.Semver()
-		for i := 0; i+1 < len(vs); i++ {
-			vAssert(semsys.Compare(vs[i].Version, vs[i+1].Version) < 0, "listing is in ascending order")
+		c14Order(sys, vs)
+	}
+}
+
+// c14Order: a listing is in ascending ecosystem order; for npm, versions that do not parse come after those that
+// do, and the version tagged latest is moved last unless it is a prerelease while releases exist.
+func c14Order(sys System, vs []Version) {
+	semsys := sys.Semver()
+	less := func(a, b string) bool {
+		_, ea := semsys.Parse(a)
+		_, eb := semsys.Parse(b)
+		if (ea == nil) != (eb == nil) {
+			return ea == nil
 		}
+		if ea == nil {
+			if c := semsys.Compare(a, b); c != 0 {
+				return c < 0
+			}
+		}
+		return a < b
+	}
+	if sys != NPM {
+		for i := 0; i+1 < len(vs); i++ {
+			vAssert(less(vs[i].Version, vs[i+1].Version), "listing is in ascending order")
+		}
+		return
+	}
+	// npm: at most one version carries the latest tag in a real package; histories with several are left alone
+	nlatest, latest := 0, -1
+	release, unparsable := false, false
+	for i, v := range vs {
+		if t, _ := v.GetAttr(version.Tags); t == "latest" {
+			nlatest++
+			latest = i
+		}
+		if sv, err := semsys.Parse(v.Version); err != nil {
+			unparsable = true
+		} else if !sv.IsPrerelease() {
+			release = true
+		}
+	}
+	if nlatest > 1 {
+		return
+	}
+	latestStays := false
+	if latest >= 0 {
+		sv, err := semsys.Parse(vs[latest].Version)
+		if err == nil && sv.IsPrerelease() {
+			if !release && unparsable {
+				return // whether a version that does not parse counts as a release is not settled by the statement
+			}
+			latestStays = release
+		}
+	}
+	vCover(latest >= 0 && !latestStays && len(vs) > 1, "latest-tagged version among several")
+	for i := 0; i+1 < len(vs); i++ {
+		if latest >= 0 && !latestStays {
+			vAssert(i+1 != latest || latest == len(vs)-1, "npm listing: the version tagged latest comes last")
+			if i == latest || i+1 == latest {
+				continue
+			}
+		}
+		vAssert(less(vs[i].Version, vs[i+1].Version), "listing is in ascending order")
+	}
+	if latest >= 0 && !latestStays {
+		vAssert(latest == len(vs)-1, "npm listing: the version tagged latest comes last")
 	}
 }
